@@ -32,8 +32,8 @@ CHECKS = {
  "C11": ("model_checking", "TLC snapshot invariant + trace prediction of jacmin_eval_nums + independent fit class",
          "The evaluation numbers returned with the Jacobian must equal the snapshot predicted by the specification (exact integers); the Jacobian is compared with an independent least-squares fit of the recorded residuals at the named points with a conditioning-scaled tolerance.",
          "fit tolerance 1e3*eps*cond*(1+|X|/spread)*max(1,|R|/(spread*|J|)), evaluated only when < 1e-3", "5 C11"),
- "C18": ("model_checking", "TLC radius-level invariants + diagnostic-table row clauses and live radius writes on traces",
-         "Radius invariants model-checked on levels; every row of soln.diagnostic_info and every live write to delta/rho of real runs is checked against the clauses of the property (ranks; documented rhoend rescaling computed by the harness).",
+ "C18": ("model_checking", "TLC radius-level invariants (Dfols.tla) + Radii.tla (reduce_rho as exact arithmetic, every state replayed on the real method) + diagnostic-table row clauses and live radius writes on traces + DfolsCtl.tla",
+         "Radius invariants model-checked on levels; Radii.tla enumerates every class of rho/rhoend, alpha1 and alpha2 with the radius clauses as invariants and each state is replayed bit-exactly on the real Controller.reduce_rho; every row of soln.diagnostic_info and every live write to delta/rho of real runs is checked against the clauses of the property (ranks; documented rhoend rescaling computed by the harness).",
          "", "5 C18"),
  "C19": ("model_checking", "ConvexInit.tla (TLC: random repair phases unreachable where a deterministic repair exists) replayed state by state into dfols.solve + trace equality in TLC: each instance run under two generator states and after an unrelated solve",
          "ConvexInit.tla models the convex-constrained initialisation with the generator's choices nondeterministic; TLC proves DetSufficient/DetUnique and enumerates every reachable final set; each initial state is realised on the real solve three times (two generator states, after an unrelated solve) and the evaluation sequences must be bit-identical where the random phases are unreachable. Solver corpus: three recorded behaviours per instance (each in a process of its own) must be identical event for event (digests of the raw events, result digest); caller data compared with deep copies.",
